@@ -3,7 +3,8 @@
 (* SimRun: the closed, concrete model of simulation mode - SimCore's        *)
 (* transition function with every oracle supplied by SimMatch (placement    *)
 (* decision tree and passive matching on concrete books and traded          *)
-(* ladders).  One market, one runner that matters ("11"), one strategy,     *)
+(* ladders).  One market, one runner that matters ("11"), one strategy (a   *)
+(* second one with TwoStrats, sharing or not the traded volume: Iso),       *)
 (* prices 1.90 / 2.00 / 2.10, sizes in pence, one update per second,        *)
 (* latencies 0.5 s.  Every behaviour of this model is directly replayable   *)
 (* through the real FlumineSimulation (harness/replay_sim.py): the          *)
@@ -14,7 +15,9 @@
 (***************************************************************************)
 EXTENDS SimProps, SimMatch
 
-CONSTANTS MaxUpdates, MaxReqs
+CONSTANTS MaxUpdates, MaxReqs,
+          TwoStrats,    \* a second strategy "B" (its own trade and runner context) trades the same runner
+          Iso           \* config.simulated_strategy_isolation
 
 VARIABLES s, pc, nreq, book, upd, tainted, last
 vars == <<s, pc, nreq, book, upd, tainted, last>>
@@ -23,7 +26,8 @@ View == <<s, pc, nreq, book, upd, tainted>>
 Mid == "1.100000001"
 Client == "c1"
 Sel == "11"
-Rck == "A|1.100000001|11"
+RckOf(sn) == sn \o "|1.100000001|11"
+Rck == RckOf("A")
 LatMs == 500
 Gap == 1000
 
@@ -73,7 +77,7 @@ FirstDue(st) ==
     THEN CHOOSE i \in DOMAIN st.hq : Due(st, st.hq[i], Mid) /\ \A j \in DOMAIN st.hq : Due(st, st.hq[j], Mid) => i <= j
     ELSE 0
 
-RLab(o) == IF o = "o1" THEN "o1.r1" ELSE IF o = "o2" THEN "o2.r1" ELSE "x.r1"
+RLab(o) == IF o = "o1" THEN "o1.r1" ELSE IF o = "o2" THEN "o2.r1" ELSE IF o = "b1" THEN "b1.r1" ELSE "x.r1"
 
 \* the engine's answer for every order of the package, computed by SimMatch on the book that
 \* prevailed before this update
@@ -118,7 +122,7 @@ Mw ==
            ord1 == IF newlyRemoved THEN VoidAll(s.ord) ELSE s.ord
            active == \E o \in DOMAIN s.ord : s.ord[o].inbl
            ord2 == IF active
-                   THEN MwAll(ord1, Mid, TRUE, (Sel :> upd.delta), mb, s.clock, (Client :> 1000))
+                   THEN MwAll(ord1, Mid, Iso, (Sel :> upd.delta), mb, s.clock, (Client :> 1000))
                    ELSE ord1
            mk == [InitMkt EXCEPT !.status = upd.status, !.version = upd.version, !.pt = s.clock,
                                  !.removed = IF upd.removed THEN <<Sel>> ELSE <<>>,
@@ -136,22 +140,27 @@ Sweep ==
     /\ UNCHANGED <<nreq, book, upd, tainted>>
 
 \* ---- strategy
-PlaceReq(o, side, price, size, tif, minfill, t) ==
-    [kind |-> "PLACE", o |-> o, t |-> t, force |-> FALSE, ctx |-> FALSE, mid |-> Mid, strat |-> "A", rck |-> Rck,
+PlaceReqOf(sn, o, side, price, size, tif, minfill, t) ==
+    [kind |-> "PLACE", o |-> o, t |-> t, force |-> FALSE, ctx |-> FALSE, mid |-> Mid, strat |-> sn, rck |-> RckOf(sn),
      sel |-> 11, side |-> side, otype |-> "LIMIT", price |-> price, size |-> size, pers |-> "LAPSE", tif |-> tif,
      minfill |-> minfill, multi |-> TRUE, reset |-> 0, placereset |-> 0, maxtrades |-> 1000000, maxlive |-> 1000,
      pendorders |-> FALSE, r |-> "ACCEPT", selk |-> Sel, client |-> Client, lad |-> "CLASSIC", tclient |-> "", mver |-> -1]
+PlaceReq(o, side, price, size, tif, minfill, t) == PlaceReqOf("A", o, side, price, size, tif, minfill, t)
 
 Requests ==
     {PlaceReq("o1", "BACK", 200, 200, "NONE", -1, "t1"), PlaceReq("o1", "BACK", 210, 200, "NONE", -1, "t1"),
      PlaceReq("o2", "LAY", 200, 200, "NONE", -1, "t2"), PlaceReq("o2", "BACK", 200, 300, "FOK", 200, "t1"),
      PlaceReq("o2", "BACK", 200, 200, "NONE", -1, "t1")}
+    \cup (IF TwoStrats
+          THEN {PlaceReqOf("B", "b1", "BACK", 200, 200, "NONE", -1, "tb"), PlaceReqOf("B", "b1", "BACK", 190, 300, "NONE", -1, "tb"),
+                PlaceReqOf("B", "b1", "LAY", 200, 200, "NONE", -1, "tb")}
+          ELSE {})
     \cup {[kind |-> "CANCEL", o |-> o, red |-> rd, force |-> FALSE, mid |-> Mid, r |-> "ACCEPT", tclient |-> ""] :
              o \in DOMAIN s.ord, rd \in {0, 100}}
     \cup {[kind |-> "UPDATE", o |-> o, pers |-> "PERSIST", force |-> FALSE, mid |-> Mid, r |-> "ACCEPT", tclient |-> ""] :
              o \in DOMAIN s.ord}
     \cup {[kind |-> "REPLACE", o |-> o, price |-> 190, force |-> FALSE, mid |-> Mid, r |-> "ACCEPT", tclient |-> "", mver |-> -1] :
-             o \in DOMAIN s.ord \cap {"o1", "o2"}}
+             o \in DOMAIN s.ord \cap {"o1", "o2", "b1"}}
 
 \* the real controls accept whatever this module leaves open (no limits are configured in the replay)
 Verdict(q) == LET ex == Expected(s, q) IN
